@@ -24,7 +24,7 @@ ASSUMPTIONS = [
     "q=+1 for K/R, -1 for D/E, 0 otherwise; agreement judged to 1e-9 relative + 1e-12 absolute",
     "anchors: SCD(sv1=(EK)25) = -0.41 and SCD(sv30=E25K25) = -27.84 as published by Sawle & Ghosh (2 decimals)",
 ]
-REQUIRED = {"all": ["salted_objects", "fewer_than_two_charges", "charged_first_residue", "charged_last_residue", "long_repetitive",
+REQUIRED = {"all": ["salted_objects", "charged_counts_next_to_512_1024", "fewer_than_two_charges", "charged_first_residue", "charged_last_residue", "long_repetitive",
                     "after_other_queries", "anchors", "longer_than_1000", "second_calls"]}
 LP = {"quick": 10, "thorough": 12}
 NRANDOM = {"quick": 500, "thorough": 5000}
@@ -44,6 +44,11 @@ def cases(tier, seed):
     for nc in (127, 128, 129, 130, 255, 256, 257, 385):
         yield {"k": "seq", "s": ("KE" * 200)[:nc], "pre": 0}
         yield {"k": "seq", "s": "".join(c + "G" for c in ("KKE" * 150)[:nc]), "pre": 0}
+    for nc in (511, 512, 513, 514, 769, 1023, 1024, 1025):
+        # charged-residue counts next to 2^9 and 2^10 (tile / chunk sizes of a vectorised pair sum)
+        yield {"k": "seq", "s": ("KE" * 600)[:nc], "pre": 0, "tile": 1}
+        if nc in (513, 1025):
+            yield {"k": "seq", "s": "G" * 7 + ("KKE" * 400)[:nc - 1] + "GGG" + "D", "pre": 0, "tile": 1}
     yield {"k": "longs", "lens": [1400, 1050, 1050] if tier == "quick" else [2000, 1400, 1050, 1050, 1200]}
     for L in range(1, LP[tier] + 1):
         for pat in gen.all_patterns(L):
@@ -124,6 +129,8 @@ def judge(case, rep, S):
         rep.cnt("charged_last_residue")
     if len(seq) >= 150:
         rep.cnt("long_repetitive")
+    if case.get("tile"):
+        rep.cnt("charged_counts_next_to_512_1024")
     ok = False
     try:
         ok = M.close(float(got), want)
